@@ -95,7 +95,7 @@ def run(tier, seed):
     common.build_mmdump(debug=True)
     mirs = common.prog_mirs()
     files = common.corpus_files(['cl', 'fi', 'fx', 'sc'])
-    files = [f for f in files if os.path.basename(f).startswith(('sc_', 'scheduler', 'cl_', 'closure', 'hof', 'box', 'enum', 'generic', 'placeholder', 'recursion', 'parameter_pack', 'record', 'pipe', 'loopcounter'))]
+    files = [f for f in files if os.path.basename(f).startswith(('sc_', 'scheduler', 'cl_', 'fi_', 'closure', 'hof', 'box', 'enum', 'generic', 'placeholder', 'recursion', 'parameter_pack', 'record', 'pipe', 'loopcounter'))]
     N = 3 if quick else 6
     budget = 90 if quick else 400
     jobs = [('analysis', dict(cls=('checks.c12', 'LeakAnalysis'), path=f, mir_paths=mirs, steps=2 * N, mode='bmc', query_timeout_ms=5000 if quick else 30000,
